@@ -92,6 +92,11 @@ def build_type_dict_from_type(t: Type, at_class: Optional[Type] = None) -> Dict[
     generic_type = get_origin(t)
     if generic_type is None:
         if at_class is not None:
+            # A class that isn't parameterized itself can still inherit from a
+            # parameterized one (`class JetVec(MyIter[Jet])`): look there.
+            inherited = Any if t is at_class else get_inherited(t)
+            if inherited is not Any:
+                return build_type_dict_from_type(inherited, at_class)
             raise TypeError(f"Could not find type {str(at_class)} in {str(t)}")
         return {}
 
